@@ -120,7 +120,7 @@ func (g *G) simpleStmt(depth int) *Node {
 			}
 		}
 		return &Node{Kind: "StmtStatic", Kids: []Kid{list("Vars", vs)}, Parts: parts(g.kw("static"), sepList(vs, ","), g.semi())}
-	case k == 13:
+	case k == 13 && g.inHeredoc == 0:
 		return g.heredocStmt(depth)
 	case k == 14:
 		return &Node{Kind: "StmtNop", Parts: parts(t(";"))}
